@@ -221,7 +221,13 @@ type PipeWatch struct {
 
 func WatchPipes(s mangos.Socket) *PipeWatch {
 	w := &PipeWatch{}
-	s.SetPipeEventHook(func(ev mangos.PipeEvent, p mangos.Pipe) {
+	s.SetPipeEventHook(WatchPipesFunc(w))
+	return w
+}
+
+// WatchPipesFunc returns the counting hook for w, for callers that install a hook of their own around it.
+func WatchPipesFunc(w *PipeWatch) func(mangos.PipeEvent, mangos.Pipe) {
+	return func(ev mangos.PipeEvent, p mangos.Pipe) {
 		w.mu.Lock()
 		switch ev {
 		case mangos.PipeEventAttached:
@@ -231,8 +237,7 @@ func WatchPipes(s mangos.Socket) *PipeWatch {
 			w.detached++
 		}
 		w.mu.Unlock()
-	})
-	return w
+	}
 }
 
 // Pipes returns the pipes that attached so far.
